@@ -321,6 +321,9 @@ def _process_properties(  # noqa: PLR0912, PLR0911
     required_properties = []
     optional_properties = []
     for prop in properties.values():
+        if prop.name in required_set and not prop.required:
+            # Inherited from an allOf reference as optional, but required by this schema or another allOf member
+            prop = evolve(prop, required=True)
         if prop.required:
             required_properties.append(prop)
         else:
